@@ -21,6 +21,10 @@
 (*             its own dumped gate list (clauses size, counts,               *)
 (*             counts_n_qubit, is_variational, is_mixed_state, depth,        *)
 (*             width);                                                       *)
+(*   fresh     the result of an out-of-place operation shares no object    *)
+(*             with the other live objects (clause result-aliases-operand), *)
+(*             and - by the frame clause of the FOLLOWING steps - mutating  *)
+(*             the result never changes an operand;                         *)
 (*   width     the documented width rule: exact (fixed n or max index + 1)   *)
 (*             while the object's history is in the documented zone,         *)
 (*             >= max index + 1 always, and the operation-specific rule at   *)
@@ -54,10 +58,10 @@ Max2(a, b) == IF a >= b THEN a ELSE b
 Prov2(x, y) == IF x.prov # "" THEN x.prov ELSE y.prov
 Plain(x) == x.wdoc /\ x.fixedN = 0
 
-InPlace(act) == act.op \in {"trim", "reindex"} \/ (act.op \in {"small", "redundant", "merge", "simplify"} /\ act.form = "method")
+InPlace(act) == act.op \in {"trim", "reindex", "setparam"} \/ (act.op \in {"small", "redundant", "merge", "simplify"} /\ act.form = "method")
 Written(act) == IF act.op = "new" THEN act.dst
                 ELSE IF act.op = "add" \/ InPlace(act) THEN act.o
-                ELSE IF act.op \in {"concat", "repeat", "copy", "inverse", "stack", "small", "redundant", "merge", "simplify"} THEN act.dst
+                ELSE IF act.op \in {"concat", "repeat", "copy", "inverse", "stack", "stack0", "stack1", "small", "redundant", "merge", "simplify"} THEN act.dst
                 ELSE 0
 
 \* "ok" (must succeed), "reject" (must raise), "either"
@@ -71,11 +75,13 @@ Expect(act, prev, anns) ==
        [] act.op = "addbad"  -> "reject"
        [] act.op = "repeat"  -> IF act.n >= 1 THEN "ok" ELSE "reject"
        [] act.op = "inverse" -> IF ~Invertible(gs) THEN "reject" ELSE IF Symbolic(gs) THEN "either" ELSE "ok"
-       [] act.op = "reindex" -> IF ~an.wdoc THEN "either"
+       [] act.op = "reindex" -> IF ~ValidNew(act.new) THEN "reject"
+                                ELSE IF ~an.wdoc THEN "either"
                                 ELSE IF Len(act.new) = Cardinality(QIdxOf(gs, an)) THEN "ok" ELSE "reject"
        [] act.op \in {"small", "merge"} -> IF Symbolic(gs) THEN "either" ELSE "ok"
        [] act.op \in {"redundant", "simplify"} -> IF Symbolic(gs) \/ ~Invertible(gs) THEN "either" ELSE "ok"
        [] act.op \in {"translate", "simulate"} -> "either"
+       [] act.op = "setparam" -> "ok"
        [] OTHER -> "ok"
 
 \* <<known, gates>>: the gate list the written slot must hold after a successful structural operation
@@ -90,6 +96,10 @@ ExpGates(act, prev, anns) ==
        [] act.op = "trim"   -> <<TRUE, Compress(a, Used(a))>>
        [] act.op = "reindex" -> IF anns[act.o].wdoc THEN <<TRUE, ReindexGates(a, QIdxOf(a, anns[act.o]), act.new)>> ELSE <<FALSE, <<>>>>
        [] act.op = "stack"  -> <<TRUE, StackModel(<<a, b>>)>>
+       [] act.op = "stack0" -> <<TRUE, <<>>>>
+       [] act.op = "stack1" -> <<TRUE, Compress(a, Used(a))>>
+       [] act.op = "setparam" -> LET j == SetMin({x \in 1..Len(a) : a[x].name \in ParamNames /\ a[x].s = ""})
+                                 IN <<TRUE, [a EXCEPT ![j] = [@ EXCEPT !.k = @ + 2]]>>
        [] OTHER -> <<FALSE, <<>>>>
 
 \* operation-specific width rule at creation; -1 = none
@@ -101,6 +111,9 @@ ExpWidth(act, prev) ==
        [] act.op = "trim" -> Cardinality(Used(GatesOf(a)))
        [] act.op = "reindex" -> SetMax(ToSet(act.new)) + 1
        [] act.op = "stack" -> Cardinality(Used(GatesOf(a))) + Cardinality(Used(GatesOf(b)))
+       [] act.op = "stack0" -> 0
+       [] act.op = "stack1" -> Cardinality(Used(GatesOf(a)))
+       [] act.op = "setparam" -> a.width
        [] act.op \in {"small", "redundant"} /\ ~act.rq -> a.width
        [] act.op = "add" -> Max2(a.width, MaxIdx(<<act.g>>) + 1)
        [] OTHER -> -1
@@ -117,6 +130,9 @@ NewAnn(act, anns, prev) ==
        [] act.op \in {"repeat", "copy", "inverse"} -> Ann(a.fixedN, a.wdoc, a.prov)
        [] act.op = "concat" -> IF Plain(a) /\ Plain(b) THEN FreeAnn ELSE Ann(0, FALSE, Prov2(a, b))
        [] act.op = "stack" -> IF Plain(a) /\ Plain(b) THEN FreeAnn ELSE Ann(0, FALSE, Prov2(a, b))
+       [] act.op = "stack0" -> FreeAnn
+       [] act.op = "stack1" -> IF Plain(a) THEN FreeAnn ELSE Ann(0, FALSE, a.prov)
+       [] act.op = "setparam" -> a
        [] act.op = "trim" -> IF Plain(a) THEN a
                              ELSE IF fixedDoc THEN Ann(Cardinality(Used(GatesOf(prev[act.o]))), TRUE, "")
                              ELSE Ann(0, FALSE, a.prov)
@@ -145,6 +161,10 @@ StepV(S, st, k) ==
      \o (IF st.raised
          THEN Flatten(TLCEval([s \in 1..n |-> IF cur[s] = prev[s] THEN <<>> ELSE <<<<k, "state-changed-on-raise", s, S.anns[s].prov>>>>]))
          ELSE Flatten(TLCEval([s \in 1..n |-> IF s = w \/ cur[s] = prev[s] THEN <<>> ELSE <<<<k, "frame", s, S.anns[s].prov>>>>])))
+     \* freshness: the result of an out-of-place operation is a different object sharing no gate object / index list
+     \* with any other live object (recorded identity observation `alias` = slots it shares with)
+     \o (IF ~st.raised /\ Len(st.alias) > 0
+         THEN TLCEval([x \in 1..Len(st.alias) |-> <<k, "result-aliases-operand", st.alias[x], pv>>]) ELSE <<>>)
      \o (IF ~st.raised /\ w >= 1
          THEN LET eg == ExpGates(act, prev, S.anns)
                   ew == ExpWidth(act, prev)
